@@ -34,7 +34,7 @@ RULE = (
 )
 ASSUMPTIONS = [
     "documents are valid by construction against `type Query { a: Int  t: Query }` (cross-checked with validate_ast; disagreements are counted, not reported here)",
-    "variables steering @skip/@include are always provided (Boolean!)",
+    "variables steering @skip/@include are always provided (declared Boolean!, or Boolean with the opposite default)",
 ]
 BOUNDS = {
     "quick": {"nodes": 7, "deviation_nodes": 5, "multi_op_nodes": 3},
@@ -193,11 +193,14 @@ def _copy(x):
     return copy.deepcopy(x)
 
 
-def _mk_case(ops, frags, var=None, opname=None, tag="base", xv=False):
+def _mk_case(ops, frags, var=None, opname=None, tag="base", xv=False, opposite_default=False):
     ops = _copy(ops)
     if var is not None:
         for op in ops:
             op["vars"] = [["v", "Boolean!", None]]
+            if opposite_default:
+                # the declared default is the opposite of the value the caller supplies: the supplied value wins
+                op["vars"] = [["v", "Boolean", "false" if var else "true"]]
             if op["name"] is None and len(ops) == 1:
                 pass
     return {
@@ -250,6 +253,8 @@ def _deviations(ops_sels_of, frags0, ops0, tag, uses_var_everywhere):
                 # keep multi-operation documents to literal conditions
                 continue
             yield _mk_case(ops, frags, var=var, tag=tag + "/dir")
+            if var is not None:
+                yield _mk_case(ops, frags, var=var, tag=tag + "/dir-default", opposite_default=True)
         # both directives on one node, every combination of conditions, in both written orders
         for sv in ("true", "false"):
             for iv in ("true", "false"):
